@@ -1,4 +1,12 @@
-"""C12 — JSON and source-text serializations round-trip.  (work in progress: generator + implementation side)"""
+"""C12 — JSON and source-text serializations round-trip.
+Model: lean/Pyrealb/Model/{Expr,Json,ExprSource}.lean ; theorems: Props/C12.lean ; tables: Gen/OptionTable.lean.
+
+Correspondence: seeded construction programs (both notations, both languages, every option kind, add() with and
+without position, bare strings) are built by the real pyrealb and by the model; compared: the warning flag, the text of
+toJSON(), toSource(), and — for the three routes fromJSON(toJSON), fromJSON(loads(dumps(toJSON))), eval(toSource()),
+each run under the requested CURRENT language — the error class or the two serializations of the decoded expression.
+Direct oracle (independent of the model) = the property on the implementation: on every route the decoded expression
+realizes to the same text and serializes to the same JSON and the same source again."""
 import contextlib
 import datetime
 import io
@@ -8,6 +16,53 @@ import re
 import sys
 
 from harness import core
+
+META = {
+    "ops": "rt",
+    "driver": "drv_json",
+    "translators": ["options"],
+    "technique": "Lean 4 proofs by structural induction on expression trees (all expressions, all lexicons; one lemma per "
+                 "option kind; tables of options lifted from the source by AST on every run) + differential correspondence of "
+                 "the executable model with the real pyrealb on seeded construction programs + direct oracle",
+    "level_text": "Kernel-checked, for every expression tree and every lexicon: fromJSON(toJSON(e)) has the same tree and option "
+                  "state as e, and the same JSON again, under per-node side conditions WFJ (each props entry is one its option "
+                  "method accepts for that constituent kind — one constructor of `Replays` per option kind: feature options "
+                  "incl. the ow/own alias, a/b/ba/en lists, tag with attributes, typ, dOpt, maje, lexicon props skipped; "
+                  "children in an order Phrase.add leaves alone); json.loads(json.dumps(j)) = j for EVERY structure without a "
+                  "datetime (printer/reader on code-point lists), hence the text route equals the object route; decoding "
+                  "never depends on the current language (all expressions, unconditional since repair 8586a6a); "
+                  "eval(toSource(e)) rebuilds e EXACTLY (state and history), hence the same source and JSON again: text level "
+                  "parseSrc(toSource e) = progOf e for every expression whose lemmata/tag names contain no quote, backslash or "
+                  "line break and whose option values have a covered repr (SrcOK), evaluation level build(progOf e) = e when "
+                  "each constituent is of the current language and is what its own call history makes of its constructor "
+                  "(WFS); under a canonical history (CanonJ) the JSON round trip gives back the very same expression, hence the same "
+                  "source. Each full-strength clause that the code violates has a _refuted theorem with a concrete witness "
+                  "(tn() without argument, DT(datetime), Q('say \"hi\"'), a backslash lemma, a repeated option) replayed on the "
+                  "real code by the harness.",
+    "level_note": "Trusted: Lean kernel; the hand-written model (Model/Expr, Json, ExprSource) tied to the code by the "
+                  "correspondence only; A_abs (realization is a function of tree + props + lexicon entries: peng/taux sharing "
+                  "is not modelled, the oracle compares realized texts on the implementation); that an expression built without "
+                  "warnings satisfies the side conditions WFJ / CanonJ / WFS / SrcOK is NOT proved in general (they are "
+                  "decidable per expression; the oracle's syntactic classifier decides which generated inputs are expected to "
+                  "fail, and the clean profile — 49% of the inputs — must pass every clause); json.dumps is modelled with "
+                  "ensure_ascii=False (A_ascii); floats, DT() of the current instant, rtime=True, exponents / separators in NO "
+                  "strings, \\x \\u \\N escapes and triple quotes are outside the model and never generated.",
+    "rule": "seeded construction programs of 14 profiles (clean 49%: no feature known to defeat a clause; othercur, mixed, nodt, "
+            "quotes, noncanon, cpprop, preadd, addhead, adjorder, noarg, derived, wild, malformed): S/SP/NP/VP/PP/AP/AdvP/CP "
+            "and root/subj/det/mod/comp/coord trees of depth<=3 over lexicon lemmata stratified by entry keys, every option "
+            "of the makeOptionMethod table + a b ba en + tag + typ + dOpt + nat + maje + add/add@pos in both languages, "
+            "decoded under either current language; non-trivial = a program built without warning whose (program, current "
+            "language) pair is new",
+    "assumptions": [
+        "A_abs: the realized text is a function of the tree, the props and the lexicon entries used (peng/taux sharing not modelled)",
+        "A_ascii: json.dumps' default \\uXXXX escaping of non-ASCII characters is inverted by json.loads (the model prints with ensure_ascii=False)",
+        "A_repr: repr() of the option values that occur (str without control characters other than \\n \\r \\t, int, bool, None, "
+        "dict of those, datetime) is what Model/ExprSource.reprPVal prints",
+        "A_lex: the lexicon entries sent to the model (harness Lex.info, computed from the JSON data files, not through the "
+        "code under test) are what getLemma returns",
+    ],
+    "trusted": ["harness/props/C12.py: generator profiles, feature classifier of the oracle (syntactic, independent of the model)"],
+}
 
 TERMS = ["N", "A", "Pro", "D", "Adv", "V", "P", "C", "DT", "NO", "Q"]
 PHRASES = ["NP", "AP", "AdvP", "VP", "PP", "CP", "S", "SP"]
@@ -150,7 +205,7 @@ class Lex:
         if e is None or kind not in e or not isinstance(e[kind], dict):
             return None
         rules = self.rules[classlang]
-        items, tabpe, plural = [], None, False
+        items, tabpe, plural, warn = [], None, False, False
         for k, v in e[kind].items():
             if k == "tab":
                 ending = None
@@ -170,14 +225,16 @@ class Lex:
                     if v in rules["conjugation"]:
                         ending = rules["conjugation"][v]["ending"]
                     else:
-                        return None  # bad lexicon table: a warning
+                        ending = ""
+                        warn = True  # bad lexicon table
                 if ending is None or not lemma.endswith(ending):
                     if kind not in ("Adv", "C", "P"):
-                        return None  # bad lexicon table: a warning
-                items.append(["tab", v])
+                        warn = True  # bad lexicon table
+                items.append(["tab", v, tabpe, plural])
             else:
                 items.append([k, v])
-        return {"items": items, "tabpe": tabpe, "plural": plural, "id": "%s:%s:%s" % (lexlang, kind, lemma)}
+        return {"items": [i[:2] for i in items], "tabpe": tabpe, "plural": plural, "warn": warn,
+                "id": "%s:%s:%s:%s" % (lexlang, classlang, kind, lemma)}
 
     def novalue(self, lexlang, lemma):
         e = self.lex[lexlang].get(lemma)
@@ -200,12 +257,39 @@ def lexdata():
 
 PUNCT = [",", ".", "!", "?", ":", ";", "(", "[", "{", '"', "'", "*", "«", "...", " -- ", "x", ""]
 QWORDS = ["hello", "two words", "l'été", "œuvre", "", "Zoé", "a-b", "100%", "<b>", "x_y"]
-QBAD = ['say "hi"', 'a"', '"', 'back\\slash', 'tab\\there', 'end\\', 'q\\q', "it's \"x\"", 'a\\"b', "C:\\new"]
+# (a lemma that is a lone double quote prints as `Q(""")`: two of them in one expression delimit a triple-quoted
+#  string — triple quotes are outside the model and are not generated)
+QBAD = ['say "hi"', 'a"', 'x"y', 'back\\slash', 'tab\\there', 'end\\', 'q\\q', "it's \"x\"", 'a\\"b', "C:\\new"]
 TAGS = [("b", None), ("i", {}), ("a", {"href": "http://x.org/?a=1&b=2"}), ("span", {"class": "c d", "id": "n1"}),
-        ("p", {"title": "it's"}), ("div", {"data-x": 'say "hi"'}), ("a b", None), ('q"t', None), ('q"t', {"k": "v"})]
+        ("p", {"title": "it's"}), ("div", {"data-x": 'say "hi"'}), ("a b", None)]
+TAGSBAD = [('q"t', None), ('q"t', {"k": "v"}), ("b\\c", {"k": "v"})]
 DATES = ["2024-01-05", "1999-12-28T23:59:58", "2023-07-14 00:00:00", "2024-02-28T12:00:00", "2000-01-01 12:30:00"]
-NUMS = [0, 1, 2, 3, 21, 100, 1000, 1234567, -5, "1", "25", "3.5", "1000", "-2", "1,5", "1e+3"]
+NUMS = [0, 1, 2, 3, 21, 100, 1000, 1234567, -5, "1", "25", "3.5", "1000", "-2", "+7", "12."]
 NEGFR = ["plus", "jamais", "rien", "personne", "guère"]
+
+HEADS = {"NP": ("N", "NP"), "VP": ("V", "VP"), "PP": ("P", "PP"), "AP": ("A", "AP"), "AdvP": ("Adv", "AdvP"),
+         "S": ("NP", "N", "CP", "Pro", "VP", "V"), "SP": ("NP", "N", "CP", "Pro", "VP", "V"), "CP": ()}
+
+WILD = dict(addhead=True, mixed=0.07, nodt=True, derived=True, qbad=0.2, canonical=False, cpprop=True, adds_first=False,
+            adjstable=False, noarg_invalid=True, invalid=0.03, density=[0, 0, 0, 1, 1, 2, 3], padd=0.12)
+CLEAN = dict(addhead=False, mixed=0.0, nodt=False, derived=False, qbad=0.0, canonical=True, cpprop=False, adds_first=True,
+             adjstable=True, noarg_invalid=False, invalid=0.0, density=[0, 0, 1, 1, 2, 2, 3], padd=0.12)
+PROFILES = {
+    "clean": (CLEAN, 49),
+    "othercur": (CLEAN, 8),                                      # decoded under the other current language
+    "mixed": (dict(CLEAN, mixed=0.12), 6),                       # sub-expressions in the other language
+    "nodt": (dict(CLEAN, nodt=True), 8),                         # NO / DT terminals, dOpt, nat
+    "quotes": (dict(CLEAN, qbad=0.5), 3),                        # quote / backslash in a lemma or a tag name
+    "noncanon": (dict(CLEAN, canonical=False), 4),               # repeated / interleaved option calls
+    "cpprop": (dict(CLEAN, cpprop=True), 3),                     # options propagated through CP / coord
+    "preadd": (dict(CLEAN, adds_first=False, padd=0.3), 3),      # options called before add()
+    "addhead": (dict(CLEAN, addhead=True, padd=0.3), 3),         # the head of a phrase attached by add()
+    "adjorder": (dict(CLEAN, adjstable=False), 2),               # adjectives on the wrong side of the noun
+    "noarg": (dict(CLEAN, noarg_invalid=True), 1),               # tn() without argument
+    "derived": (dict(CLEAN, derived=True), 3),                   # props derived from the lexicon and re-applicable
+    "wild": (WILD, 5),
+    "malformed": (dict(WILD, invalid=0.25), 2),
+}
 
 
 class Gen:
@@ -215,9 +299,11 @@ class Gen:
         self.L = lexdata()
         self.pools = self.make_pools()
         self.opts = {o["name"]: o for o in table["options"]}
+        self.cfg = WILD
 
     def make_pools(self):
-        """per language and kind: lemmas stratified by the keys of the lexicon entry and presence in the other lexicon"""
+        """per language and kind: lemmas stratified by the keys of the lexicon entry and presence in the other lexicon;
+        each stratum is flagged `derived` when the entry gives a prop that fromJSON re-applies as an option call"""
         L = self.L
         pools = {}
         for lang in ("en", "fr"):
@@ -228,34 +314,49 @@ class Gen:
                 for kind in self.tab["lexKinds"]:
                     if kind in e and isinstance(e[kind], dict):
                         inf = L.info(lang, lang, kind, lemma)
-                        if inf is None:
+                        if inf is None or inf["warn"]:
                             continue
-                        if lang == "en" and kind == "N" and e[kind].get("cnt") == "no":
-                            continue  # D("a") + uncountable noun warns at construction (restriction of the generator)
+                        if lemma == "quelques":
+                            continue  # PhraseFr.link_DAV_properties replaces the shared `peng` by a string (outside C12)
+                        if kind == "N" and L.lex["en"].get(lemma, {}).get("N", {}).get("cnt") == "no":
+                            continue  # D("a") + uncountable noun: morphology error at construction (outside C12)
                         o = L.lex[other].get(lemma)
-                        key = (kind, tuple(sorted(k for k, _ in inf["items"] if k != "tab")), inf["tabpe"], inf["plural"],
-                               bool(o and kind in o), e[kind].get("tab") if kind in ("Pro", "D") else None)
+                        keys = tuple(sorted(k for k, _ in inf["items"] if k != "tab"))
+                        derived = bool(inf["tabpe"] is not None or inf["plural"] or
+                                       any(k in self.tab_methods() for k in keys if k not in ("pe", "n", "g", "t", "aux")))
+                        key = (kind, keys, inf["tabpe"], inf["plural"], bool(o and kind in o),
+                               e[kind].get("tab") if kind in ("Pro", "D") else None, derived)
                         strata.setdefault(key, []).append(lemma)
             for key, lemmas in strata.items():
                 pick = lemmas if len(lemmas) <= 6 else [lemmas[i * len(lemmas) // 6] for i in range(6)]
-                pools.setdefault((lang, key[0]), []).append(pick)
-            # number words
-            pools[(lang, "NOword")] = [[w for w in sorted(L.lex[lang]) if "value" in L.lex[lang][w]
-                                        and isinstance(L.lex[lang][w]["value"], int)][:40]]
+                pools.setdefault((lang, key[0], key[-1]), []).append(pick)
+            pools[(lang, "NOword", False)] = [[w for w in sorted(L.lex[lang]) if "value" in L.lex[lang][w]
+                                               and isinstance(L.lex[lang][w]["value"], int)][:40]]
         return pools
 
+    def tab_methods(self):
+        return [o["name"] for o in self.tab["options"]] + self.tab["optionListMethods"] + ["tag", "typ", "dOpt", "nat", "maje"]
+
     def word(self, lang, kind):
-        strata = self.pools[(lang, kind)]
+        strata = list(self.pools.get((lang, kind, False), []))
+        if self.cfg["derived"]:
+            d = self.pools.get((lang, kind, True), [])
+            if d and self.rng.random() < 0.5:
+                strata = d
+            else:
+                strata = strata + d
         return self.rng.choice(self.rng.choice(strata))
 
     # ---- terminals
     def term(self, lang, kind, nopts=None):
         r = self.rng
+        if kind in ("NO", "DT") and not self.cfg["nodt"]:
+            kind = "Q"
         if kind == "Q":
-            lemma = r.choice(QWORDS) if r.random() < 0.8 else r.choice(QBAD)
+            lemma = r.choice(QBAD) if r.random() < self.cfg["qbad"] else r.choice(QWORDS)
         elif kind == "NO":
             x = r.random()
-            lemma = r.choice(NUMS) if x < 0.75 else self.word(lang, "NOword")
+            lemma = r.choice(NUMS) if x < 0.75 else self.pools[(lang, "NOword", False)][0][r.randrange(40)]
         elif kind == "DT":
             lemma = r.choice(DATES)
             if r.random() < 0.12:
@@ -271,23 +372,39 @@ class Gen:
 
     def sub(self, lang):
         """language of a sub-expression: mostly the same"""
-        return lang if self.rng.random() < 0.93 else self.otherlang(lang)
+        return self.otherlang(lang) if self.rng.random() < self.cfg["mixed"] else lang
+
+    def adj_side(self, a, phrase_lang):
+        """side of the noun on which Phrase.add leaves the adjective `a`"""
+        pos = None
+        inf = self.L.info(a["lang"], a["lang"], "A", norm_lemma(a["lemma"]))
+        for k, v in (inf or {"items": []})["items"]:
+            if k == "pos":
+                pos = v
+        for c in a["calls"]:
+            if c[0] == "o" and c[1] == "pos" and c[2] in ("pre", "post"):
+                pos = c[2]
+        if pos is None:
+            pos = "pre" if phrase_lang == "en" else "post"
+        return pos
 
     def np(self, lang, depth):
         r = self.rng
         el = []
         if r.random() < 0.8:
             el.append(self.term(self.sub(lang), "D") if r.random() < 0.9 else self.term(lang, "NO"))
-        for _ in range(r.choice([0, 0, 1, 1, 2])):
-            el.append(self.term(lang, "A"))
-        el.append(self.term(self.sub(lang), "N"))
-        for _ in range(r.choice([0, 0, 0, 1, 2])):
-            el.append(self.term(lang, "A"))
+        adjs = [self.term(lang, "A") for _ in range(r.choice([0, 0, 1, 1, 2, 3]))]
+        noun = self.term(self.sub(lang), "N")
+        if self.cfg["adjstable"]:
+            el += [a for a in adjs if self.adj_side(a, lang) == "pre"] + [noun] + [a for a in adjs if self.adj_side(a, lang) != "pre"]
+        else:
+            k = r.randint(0, len(adjs))
+            el += adjs[:k] + [noun] + adjs[k:]
         if depth > 0 and r.random() < 0.25:
             el.append(self.pp(self.sub(lang), depth - 1))
-        if r.random() < 0.1:
+        if not self.cfg["adjstable"] and r.random() < 0.1:
             r.shuffle(el)
-        return self.phrase(lang, "NP", el)
+        return self.phrase(lang, "NP", el, keep=len(el) if self.cfg["adjstable"] and adjs else 0)
 
     def pp(self, lang, depth):
         return self.phrase(lang, "PP", [self.term(lang, "P"), self.np(lang, depth)])
@@ -312,10 +429,10 @@ class Gen:
             elif x < 0.78:
                 el.append(self.term(lang, "DT"))
             elif x < 0.86:
-                el.append(r.choice(QWORDS + QBAD[:2]))  # a bare string child
+                el.append(r.choice(QBAD[:2]) if r.random() < self.cfg["qbad"] else r.choice(QWORDS))  # a bare string child
         if r.random() < 0.25:
             el.append(self.phrase(lang, "AdvP", [self.term(lang, "Adv")]) if r.random() < 0.5 else self.term(lang, "Adv"))
-        return self.phrase(lang, "VP", el)
+        return self.phrase(lang, "VP", el, keep=1)  # a VP whose first child has no `peng` raises at construction (outside C12)
 
     def cp(self, lang, depth, what):
         r = self.rng
@@ -350,21 +467,48 @@ class Gen:
             el.append(self.s(lang, depth - 2, "SP"))
         return self.phrase(lang, kind, el)
 
-    def phrase(self, lang, kind, el):
+    def hoist(self, p, children, keep):
+        """some children are attached by add(), with or without position"""
         r = self.rng
-        p = {"k": kind, "lang": lang, "elems": el, "calls": []}
-        # some children are attached by add(), with or without position
         adds = []
-        while el and r.random() < 0.12:
+        heads = HEADS.get(p["k"], ())
+
+        def movable(c):
+            # in the clean profiles the head of a phrase is given to the constructor (the links set by an earlier
+            # add() are kept when the head changes: a history effect, profile `addhead`)
+            return self.cfg["addhead"] or not (isinstance(c, dict) and c["k"] in heads)
+        while len(children) > keep and r.random() < self.cfg["padd"]:
             if r.random() < 0.5:
-                adds.append(["add", el.pop(), None])
+                if not movable(children[-1]):
+                    break
+                adds.append(["add", children.pop(), None])
             else:
-                i = r.randrange(len(el))
-                c = el.pop(i)
-                adds.append(["add", c, r.choice([i, 0, len(el), i, None])])
+                i = r.randrange(keep, len(children))
+                if not movable(children[i]):
+                    break
+                c = children.pop(i)
+                adds.append(["add", c, r.choice([i, i, keep, len(children), None])])
         self.add_calls(p)
-        for a in adds:
-            p["calls"].insert(r.randint(0, len(p["calls"])), a)
+        if self.cfg["adds_first"]:
+            p["calls"] = adds + p["calls"]
+        else:
+            for a in adds:
+                p["calls"].insert(r.randint(0, len(p["calls"])), a)
+
+    def phrase(self, lang, kind, el, keep=0):
+        if self.cfg["adjstable"]:
+            # Phrase.add moves a misplaced adjective next to the first noun in EVERY kind of phrase: in the clean
+            # profiles the adjectives are given on the side where it leaves them
+            isk = lambda c, k: isinstance(c, dict) and c["k"] == k
+            if any(isk(c, "A") for c in el) and any(isk(c, "N") for c in el):
+                rest = [c for c in el if not isk(c, "A")]
+                i = next(j for j, c in enumerate(rest) if isk(c, "N"))
+                adjs = [c for c in el if isk(c, "A")]
+                el[:] = (rest[:i] + [a for a in adjs if self.adj_side(a, lang) == "pre"] + [rest[i]]
+                         + [a for a in adjs if self.adj_side(a, lang) != "pre"] + rest[i + 1:])
+                keep = len(el)
+        p = {"k": kind, "lang": lang, "elems": el, "calls": []}
+        self.hoist(p, el, keep)
         return p
 
     # ---- dependents
@@ -396,21 +540,21 @@ class Gen:
                     for _ in range(r.choice([0, 0, 1, 2])):
                         deps.append(self.dep(lang, "mod", depth - 1))
                 elif tkk == "P":
-                    deps.append(self.dep(lang, r.choice(["mod", "comp"]), depth - 1))
+                    # a head without `peng` (P, Adv, C): Dependent.linkProperties raises for several kinds of
+                    # dependents (outside C12) ; the usual prepositional complement is kept
+                    d = self.dep(lang, r.choice(["mod", "comp"]), depth - 1)
+                    for _ in range(20):
+                        if isinstance(d["term"], dict) and d["term"]["k"] in ("N", "Adv", "P", "Q", "DT"):
+                            break
+                        d = self.dep(lang, r.choice(["mod", "comp"]), depth - 1)
+                    else:
+                        d = None
+                    if d is not None:
+                        deps.append(d)
                 if r.random() < 0.1:
                     r.shuffle(deps)
         p = {"k": kind, "lang": lang, "term": t, "deps": deps, "calls": []}
-        adds = []
-        while deps and r.random() < 0.12:
-            if r.random() < 0.5:
-                adds.append(["add", deps.pop(), None])
-            else:
-                i = r.randrange(len(deps))
-                c = deps.pop(i)
-                adds.append(["add", c, r.choice([i, 0, len(deps), None])])
-        self.add_calls(p)
-        for a in adds:
-            p["calls"].insert(r.randint(0, len(p["calls"])), a)
+        self.hoist(p, deps, 0)
         return p
 
     # ---- option calls
@@ -418,13 +562,61 @@ class Gen:
         res = []
         for o in self.tab["options"]:
             if not o["allowed"] or kind in o["allowed"] or kind in DEPS:
+                if kind in ("CP", "coord") and o["name"] not in self.tab["noPropagate"] and not self.cfg["cpprop"]:
+                    continue
                 res.append(o["name"])
         return res
 
-    def one_call(self, p, force=None):
+    def opt_value(self, name):
         r = self.rng
-        kind = p["k"]
-        lang = p["lang"]
+        o = self.opts[name]
+        x = r.random()
+        if x < 0.9:
+            return r.choice(o["valid"])
+        if x < 0.95:
+            if "" in o["valid"] and (True in o["valid"] or self.cfg["noarg_invalid"]):
+                return None  # called without argument
+            return r.choice(o["valid"])
+        if r.random() < self.cfg["invalid"] * 4:
+            return r.choice(["zz", 7, True, False, "", "p"])  # possibly invalid
+        return r.choice(o["valid"])
+
+    def typ_value(self, lang):
+        r = self.rng
+        d = {}
+        for _ in range(r.choice([1, 1, 2, 3])):
+            k, vals = r.choice(self.tab["typAllowed"])
+            v = r.choice(vals)
+            if k == "neg" and lang == "fr" and r.random() < 0.3:
+                v = r.choice(NEGFR)
+            if r.random() < self.cfg["invalid"]:
+                v = "zz"
+            d[k] = v
+        if r.random() < self.cfg["invalid"]:
+            d["zz"] = True
+        return d
+
+    def dopt_value(self, kind):
+        r = self.rng
+        keys = self.tab["dOptKeysDT"] if kind == "DT" else self.tab["dOptKeysNO"]
+        d = {}
+        for _ in range(r.choice([1, 1, 2, 3])):
+            k = r.choice(keys)
+            if k == "mprecision":
+                d[k] = r.choice([0, 1, 3])
+            elif k == "rtime":
+                d[k] = r.choice([False, "2024-01-02", "2024-01-05T10:00:00", {"dt": [2024, 1, 3, 0, 0, 0]}, {"dt": [2024, 1, 9, 7, 30, 5]}])
+            else:
+                d[k] = r.random() < 0.5
+        if r.random() < self.cfg["invalid"]:
+            d[r.choice(["zz", "nat"])] = r.choice(["x", 1])
+        return d
+
+    def tag_value(self):
+        r = self.rng
+        return r.choice(TAGSBAD) if r.random() < self.cfg["qbad"] * 0.5 else r.choice(TAGS)
+
+    def menu(self, kind):
         menu = [("opt", 6), ("list", 2), ("tag", 1)]
         if kind in self.tab["typKinds"]:
             menu.append(("typ", 3))
@@ -432,74 +624,103 @@ class Gen:
             menu += [("dOpt", 5), ("nat", 3)]
         if kind in self.tab["majeKinds"]:
             menu.append(("maje", 1))
-        what = force or r.choices([m for m, _ in menu], [w for _, w in menu])[0]
+        return menu
+
+    def one_call(self, p):
+        """any call, possibly repeating an earlier one (the non-canonical histories)"""
+        r = self.rng
+        kind, lang = p["k"], p["lang"]
+        menu = self.menu(kind)
+        what = r.choices([m for m, _ in menu], [w for _, w in menu])[0]
         if what == "opt":
             names = self.applicable(kind)
-            if r.random() < 0.04:
+            if r.random() < self.cfg["invalid"]:
                 names = [o["name"] for o in self.tab["options"]]  # possibly not applicable: a warning
+            if not names:
+                return ["o", "cap", True]
             name = r.choice(names)
-            o = self.opts[name]
-            x = r.random()
-            if x < 0.9:
-                v = r.choice(o["valid"])
-            elif x < 0.95:
-                v = None  # called without argument
-            else:
-                v = r.choice(["zz", 7, True, False, "", "p"])  # possibly invalid
-            return ["o", name, v]
+            return ["o", name, self.opt_value(name)]
         if what == "list":
             return ["o", r.choice(self.tab["optionListMethods"]), r.choice(PUNCT)]
         if what == "tag":
-            t = r.choice(TAGS)
+            t = self.tag_value()
             return ["tag", t[0], t[1]]
         if what == "typ":
-            d = {}
-            for _ in range(r.choice([1, 1, 2, 3])):
-                k, vals = r.choice(self.tab["typAllowed"])
-                v = r.choice(vals)
-                if k == "neg" and lang == "fr" and r.random() < 0.3:
-                    v = r.choice(NEGFR)
-                if r.random() < 0.03:
-                    v = "zz"
-                d[k] = v
-            if r.random() < 0.02:
-                d["zz"] = True
-            return ["typ", d]
+            return ["typ", self.typ_value(lang)]
         if what == "dOpt":
-            keys = self.tab["dOptKeysDT"] if kind == "DT" else self.tab["dOptKeysNO"]
-            d = {}
-            for _ in range(r.choice([1, 1, 2, 3])):
-                k = r.choice(keys)
-                if k == "mprecision":
-                    d[k] = r.choice([0, 1, 3])
-                elif k == "rtime":
-                    d[k] = r.choice([False, "2024-01-02", "2024-01-05T10:00:00", {"dt": [2024, 1, 3, 0, 0, 0]}])
-                else:
-                    d[k] = r.random() < 0.5
-            if r.random() < 0.03:
-                d[r.choice(["zz", "nat"])] = r.choice(["x", 1])
-            return ["dOpt", d]
+            return ["dOpt", self.dopt_value(kind)]
         if what == "nat":
             return ["nat", r.choice([True, False, None])]
-        if what == "maje":
-            return ["maje", r.random() < 0.5]
-        raise AssertionError(what)
+        return ["maje", r.random() < 0.5]
+
+    def canonical_calls(self, p, n):
+        """n groups of calls, one group per prop, each group contiguous: the history that re-applying the props
+        in their order reproduces"""
+        r = self.rng
+        kind, lang = p["k"], p["lang"]
+        menu = self.menu(kind)
+        used = set()
+        calls = []
+        for _ in range(n):
+            what = r.choices([m for m, _ in menu], [w for _, w in menu])[0]
+            if what == "opt":
+                names = [x for x in self.applicable(kind) if self.opts[x]["prop"] not in used]
+                if not names:
+                    continue
+                name = r.choice(names)
+                used.add(self.opts[name]["prop"])
+                calls.append(["o", name, self.opt_value(name)])
+            elif what == "list":
+                name = r.choice(self.tab["optionListMethods"])
+                if name in used:
+                    continue
+                used.add(name)
+                for _ in range(r.choice([1, 1, 2])):
+                    calls.append(["o", name, r.choice(PUNCT)])
+            elif what == "tag":
+                if "tag" in used:
+                    continue
+                used.add("tag")
+                for _ in range(r.choice([1, 1, 2])):
+                    t = self.tag_value()
+                    calls.append(["tag", t[0], t[1]])
+            elif what == "typ":
+                if "typ" in used:
+                    continue
+                used.add("typ")
+                calls.append(["typ", self.typ_value(lang)])
+            elif what == "dOpt":
+                calls.append(["dOpt", self.dopt_value(kind)])
+            elif what == "nat":
+                calls.append(["nat", r.choice([True, False, None])])
+            elif what == "maje":
+                if "maje" in used:
+                    continue
+                used.add("maje")
+                calls.append(["maje", r.random() < 0.5])
+        return calls
 
     def add_calls(self, p, n=None):
         r = self.rng
         if n is None:
-            n = r.choice([0, 0, 0, 1, 1, 2, 3])
-        for _ in range(n):
-            p["calls"].append(self.one_call(p))
+            n = r.choice(self.cfg["density"])
+        if self.cfg["canonical"]:
+            p["calls"] += self.canonical_calls(p, n)
+        else:
+            for _ in range(n):
+                p["calls"].append(self.one_call(p))
 
-    def program(self):
+    def program(self, profile="wild"):
+        self.cfg = PROFILES[profile][0]
         r = self.rng
         lang = r.choice(["en", "fr"])
         x = r.random()
-        if x < 0.22:
-            kind = r.choice(TERMS)
-            return self.term(lang, kind, nopts=r.choice([0, 1, 1, 2, 3, 4]))
-        if x < 0.50:
+        if x < 0.2:
+            kinds = [k for k in TERMS if self.cfg["nodt"] or k not in ("NO", "DT")]
+            if profile == "nodt":
+                kinds = ["NO", "NO", "DT"]
+            return self.term(lang, r.choice(kinds), nopts=r.choice([0, 1, 1, 2, 3, 4]))
+        if x < 0.48:
             return self.s(lang, 3)
         if x < 0.62:
             return r.choice([lambda: self.np(lang, 2), lambda: self.vp(lang, 2), lambda: self.pp(lang, 1), lambda: self.ap(lang),
@@ -507,6 +728,16 @@ class Gen:
         if x < 0.9:
             return self.dep(lang, "root", 3)
         return self.dep(lang, r.choice(DEPS), 2)
+
+    def line(self):
+        r = self.rng
+        names = list(PROFILES)
+        profile = r.choices(names, [PROFILES[n][1] for n in names])[0]
+        p = self.program(profile)
+        cur = p["lang"]
+        if profile == "othercur" or (profile in ("wild", "malformed", "mixed") and r.random() < 0.3):
+            cur = self.otherlang(cur)
+        return {"prog": p, "cur": cur, "profile": profile}
 
 
 def nodes(p):
@@ -542,7 +773,7 @@ def impl_line(im, line):
         return {"warn": True}, None
     j, s = im.ser(e)
     jt = jtext(j)
-    ans = {"warn": False, "json": jt, "src": s}
+    ans = {"warn": False, "j": jt, "s": s}
     j = copy.deepcopy(j)
     e0 = im.build(prog)
     text0 = im.realize(e0, root_lang)
@@ -566,7 +797,7 @@ def impl_line(im, line):
             obs["routes"][r] = {"err": exc}
             continue
         j1, s1 = im.ser(e1)
-        ans[r] = {"json": jtext(j1), "src": s1, "msgs": msgs}
+        ans[r] = {"json": jtext(j1), "src": s1, "msgs": msgs > 0}
         same = (j1 == j)
         j1 = copy.deepcopy(j1)
         text1 = im.realize(e1, root_lang)   # realization modifies the expression: done last
@@ -574,3 +805,406 @@ def impl_line(im, line):
     obs["j"] = j
     obs["s"] = s
     return ans, obs
+
+
+# --------------------------------------------------------------------------------------------- model side
+
+def norm_lemma(x):
+    return x.replace("œ", "oe").replace("æ", "ae")
+
+
+def pairs(d):
+    return [[k, v] for k, v in d.items()]
+
+
+def model_prog(p):
+    """the program as the driver reads it: dictionaries whose order matters become lists of pairs"""
+    if isinstance(p, str):
+        return p
+    q = {k: v for k, v in p.items() if k not in ("elems", "term", "deps", "calls")}
+    if "elems" in p:
+        q["elems"] = [model_prog(c) for c in p["elems"]]
+    if "term" in p:
+        q["term"] = model_prog(p["term"])
+        q["deps"] = [model_prog(c) for c in p["deps"]]
+    calls = []
+    for c in p["calls"]:
+        if c[0] == "add":
+            calls.append(["add", model_prog(c[1]), c[2]])
+        elif c[0] in ("typ", "dOpt"):
+            calls.append([c[0], pairs(c[1])])
+        elif c[0] == "tag":
+            calls.append(["tag", c[1], None if c[2] is None else pairs(c[2])])
+        else:
+            calls.append(c)
+    q["calls"] = calls
+    return q
+
+
+def model_env(prog, table):
+    """the lexicon entries the model may look up for this program, under either current language"""
+    L = lexdata()
+    lex, now = [], []
+    seen = set()
+    for n in nodes(prog):
+        if n["k"] in table["lexKinds"] and isinstance(n["lemma"], str):
+            lemma = norm_lemma(n["lemma"])
+            for a in ("en", "fr"):
+                key = (a, n["k"], lemma)
+                if key not in seen:
+                    seen.add(key)
+                    inf = L.info(a, a, n["k"], lemma)
+                    if inf is not None:
+                        lex.append([a, n["k"], lemma, inf])
+        elif n["k"] == "NO" and isinstance(n["lemma"], str):
+            lemma = norm_lemma(n["lemma"])
+            for a in ("en", "fr"):
+                key = ("NO", a, lemma)
+                if key not in seen:
+                    seen.add(key)
+                    v = L.novalue(a, lemma)
+                    if v is not None and isinstance(v["value"], int):
+                        now.append([a, lemma, v["value"], v["ord"]])
+    return {"lex": lex, "now": now}
+
+
+def model_line(line, table):
+    return {"op": "rt", "cur": line["cur"], "prog": model_prog(line["prog"]), "env": model_env(line["prog"], table)}
+
+
+# --------------------------------------------------------------------------------------------- the direct oracle
+
+def canonical_history(calls, table):
+    """True when re-applying the resulting props in their order replays exactly these calls (adds ignored)"""
+    opts = {o["name"]: o for o in table["options"]}
+    seen = []
+    last = None
+    for c in calls:
+        if c[0] == "add":
+            continue
+        if c[0] == "o":
+            key = opts[c[1]]["prop"] if c[1] in opts else c[1]
+            multi = c[1] in table["optionListMethods"]
+        elif c[0] == "tag":
+            key, multi = "tag", True
+        else:
+            key, multi = c[0], False
+        if c[0] in ("dOpt", "nat"):
+            return False
+        if key in seen and not (multi and key == last):
+            return False
+        if key not in seen:
+            seen.append(key)
+        last = key
+    return True
+
+
+def features(line, table):
+    """syntactic features of the input that are known (DESIGN §5 C12, known_findings.d/C12.json) to defeat a clause"""
+    prog, cur = line["prog"], line["cur"]
+    L = lexdata()
+    opts = {o["name"]: o for o in table["options"]}
+    methods = [o["name"] for o in table["options"]] + table["optionListMethods"] + ["tag", "typ", "dOpt", "nat", "maje"]
+    f = set()
+    for n in nodes(prog):
+        k = n["k"]
+        if n["lang"] != cur:
+            f.add("lang")
+        if k == "NO":
+            f.add("NO")
+            if isinstance(n["lemma"], str) and L.novalue(n["lang"], norm_lemma(n["lemma"])):
+                f.add("NO-letters")
+        if k == "DT":
+            f.add("DT")
+            if isinstance(n["lemma"], dict):
+                f.add("datetime")
+        if k == "Q" and isinstance(n["lemma"], str) and ('"' in n["lemma"] or "\\" in n["lemma"]):
+            f.add("quote-lemma")
+        for c in list(n.get("elems", [])) + ([n["term"]] if "term" in n else []) + [c[1] for c in n["calls"] if c[0] == "add"]:
+            if isinstance(c, str) and ('"' in c or "\\" in c):
+                f.add("quote-lemma")
+        if k in table["lexKinds"] and isinstance(n["lemma"], str):
+            inf = L.info(n["lang"], n["lang"], k, norm_lemma(n["lemma"]))
+            if inf and (inf["tabpe"] is not None or inf["plural"] or any(
+                    kk in methods and kk not in ("pe", "n", "g", "t", "aux") for kk, _ in inf["items"] if kk != "tab")):
+                f.add("derived")
+        if not canonical_history(n["calls"], table):
+            f.add("noncanon")
+        seen_opt = False
+        for c in n["calls"]:
+            if c[0] == "add":
+                if seen_opt:
+                    f.add("preadd")
+                if isinstance(c[1], dict) and c[1]["k"] in HEADS.get(k, ()):
+                    f.add("addhead")
+            else:
+                seen_opt = True
+            if c[0] == "tag" and c[2] and ('"' in c[1] or "\\" in c[1]):
+                f.add("quote-tag")
+            if c[0] == "dOpt" and any(isinstance(v, dict) for v in c[1].values()):
+                f.add("datetime")
+            if c[0] == "dOpt" and isinstance(c[1].get("rtime"), str):
+                f.add("rtime-str")
+            if c[0] == "o" and c[1] in opts:
+                o = opts[c[1]]
+                if k in ("CP", "coord") and c[1] not in table["noPropagate"]:
+                    f.add("cpprop")
+                    if o["prop"] != o["name"]:
+                        f.add("cpprop-alias")
+                if c[2] is None and "" in o["valid"] and True not in o["valid"]:
+                    f.add("noarg")
+        if k in PHRASES and not adj_stable(n, L):
+            f.add("adjorder")
+    return f
+
+
+def adj_stable(np, L):
+    """no adjective child (given in the constructor or by add) is on the wrong side of the first noun"""
+    kids = [c for c in np.get("elems", [])] + [c[1] for c in np["calls"] if c[0] == "add"]
+    if any(c[0] == "add" for c in np["calls"]) and any(isinstance(c, dict) and c["k"] == "A" for c in kids):
+        return False   # position given by add(): not analysed
+    idx = next((i for i, c in enumerate(kids) if isinstance(c, dict) and c["k"] == "N"), None)
+    if idx is None:
+        return True
+    for i, c in enumerate(kids):
+        if isinstance(c, dict) and c["k"] == "A":
+            pos = None
+            inf = L.info(c["lang"], c["lang"], "A", norm_lemma(c["lemma"])) if isinstance(c["lemma"], str) else None
+            for kk, v in (inf or {"items": []})["items"]:
+                if kk == "pos":
+                    pos = v
+            for cc in c["calls"]:
+                if cc[0] == "o" and cc[1] == "pos" and cc[2] in ("pre", "post"):
+                    pos = cc[2]
+            if pos is None:
+                pos = "pre" if np["lang"] == "en" else "post"
+            if (pos == "pre" and i > idx) or (pos == "post" and i < idx):
+                return False
+    return True
+
+
+# which clause failures each feature is known to explain: feature -> route -> aspects
+ANY = ("text", "json", "source")
+EXPLAINS = [
+    ("quote-lemma", {"source": ("err:SyntaxError", "text", "json", "source")}),
+    ("quote-tag", {"source": ("err:SyntaxError",)}),
+    ("datetime", {"json-text": ("err:TypeError",), "source": ("err:NameError", "json"), "json": ("source",)}),
+    ("rtime-str", {"json-text": ("err:TypeError",), "json": ("source",), "source": ()}),
+    ("cpprop-alias", {"source": ("err:AttributeError",)}),
+    ("NO-letters", {"source": ("err:AttributeError", "json", "text"), "json": ("json", "source", "text"),
+                    "json-text": ("json", "source", "text")}),
+    ("lang", {"source": ANY}),
+    ("adjorder", {"json": ANY, "json-text": ANY, "source": ANY}),
+    ("noarg", {"json": ANY, "json-text": ANY, "source": ANY}),
+    ("NO", {"json": ("source",), "json-text": ("source",), "source": ("json",)}),
+    ("DT", {"json": ("source",), "json-text": ("source",)}),
+    ("derived", {"json": ("source",), "json-text": ("source",)}),
+    ("cpprop", {"json": ("source", "text"), "json-text": ("source", "text"), "source": ("text", "json")}),
+    ("noncanon", {"json": ("source",), "json-text": ("source",)}),
+    ("preadd", {"json": ("text",), "json-text": ("text",), "source": ("text",)}),
+    ("addhead", {"json": ("text",), "json-text": ("text",), "source": ("text",)}),
+]
+
+
+def oracle(line, ans, obs, table):
+    """list of (signature, detail) : the clauses of the property the implementation violates on this input"""
+    if ans.get("warn"):
+        return []
+    fails = []
+    feats = None
+    seen_json = None
+    for r in ROUTES:
+        o = obs["routes"][r]
+        bad = []
+        if "err" in o:
+            bad.append(("err:" + o["err"], "decoding raised " + o["err"]))
+        else:
+            if o["text"] != obs["text"]:
+                bad.append(("text", "realizes to %r instead of %r" % (o["text"], obs["text"])))
+            if not o["json_same"]:
+                bad.append(("json", "toJSON() differs"))
+            if not o["src_same"]:
+                bad.append(("source", "toSource() is %r instead of %r" % (o["s1"][:300], obs["s"][:300])))
+        if r == "json":
+            seen_json = [a for a, _ in bad]
+        elif r == "json-text" and [a for a, _ in bad] == seen_json:
+            continue  # the text route fails exactly as the object route does: the same finding, reported once
+        for aspect, detail in bad:
+            if feats is None:
+                feats = features(line, table)
+            cause = next((f for f, ex in EXPLAINS if f in feats and aspect in ex.get(r, ())), None)
+            sig = "%s:%s:%s" % (r, aspect, cause or "unexplained")
+            fails.append((sig, "%s [source: %s]" % (detail, str(obs["s"])[:300])))
+    return fails
+
+
+# --------------------------------------------------------------------------------------------- run
+
+_WORKER = None
+
+# snapshot of the option tables (harness/translate/options.py), used ONLY to keep generating inputs when the translator
+# can no longer find a construct in the source (that failure itself is reported by the pipeline as a broken tie)
+FALLBACK_TABLE = {'optionListMethods': ['a', 'b', 'ba', 'en'], 'deprels': ['root', 'subj', 'det', 'mod', 'comp', 'coord'], 'options': [{'name': 'pe', 'valid': [1, 2, 3, '1', '2', '3'], 'allowed': ['D', 'Pro', 'N', 'NP', 'A', 'AP', 'V', 'VP', 'S', 'SP', 'CP'], 'prop': 'pe'}, {'name': 'n', 'valid': ['s', 'p', 'x'], 'allowed': ['D', 'Pro', 'N', 'NO', 'NP', 'A', 'AP', 'V', 'VP', 'S', 'SP', 'CP'], 'prop': 'n'}, {'name': 'g', 'valid': ['m', 'f', 'n', 'x'], 'allowed': ['D', 'Pro', 'N', 'NP', 'A', 'AP', 'V', 'VP', 'S', 'SP', 'CP'], 'prop': 'g'}, {'name': 't', 'valid': ['p', 'i', 'f', 'ps', 'c', 's', 'si', 'ip', 'pr', 'pp', 'b', 'b-to', 'pc', 'pq', 'cp', 'pa', 'fa', 'spa', 'spq', 'bp', 'bp-to'], 'allowed': ['V', 'VP', 'S', 'SP', 'CP'], 'prop': 't'}, {'name': 'aux', 'valid': ['av', 'êt', 'aê'], 'allowed': ['V', 'VP', 'S', 'SP', 'CP'], 'prop': 'aux'}, {'name': 'f', 'valid': ['co', 'su'], 'allowed': ['A', 'Adv'], 'prop': 'f'}, {'name': 'tn', 'valid': ['', 'refl'], 'allowed': ['Pro'], 'prop': 'tn'}, {'name': 'c', 'valid': ['nom', 'acc', 'dat', 'refl', 'gen'], 'allowed': ['Pro'], 'prop': 'c'}, {'name': 'pos', 'valid': ['post', 'pre'], 'allowed': ['A', 'Adv', 'root', 'subj', 'det', 'mod', 'comp', 'coord'], 'prop': 'pos'}, {'name': 'pro', 'valid': ['', False, True], 'allowed': ['NP', 'PP'], 'prop': 'pro'}, {'name': 'ow', 'valid': ['s', 'p', 'x'], 'allowed': ['D', 'Pro'], 'prop': 'own'}, {'name': 'poss', 'valid': ['', False, True], 'allowed': ['N', 'Q'], 'prop': 'poss'}, {'name': 'cap', 'valid': ['', False, True, 'tit'], 'allowed': [], 'prop': 'cap'}, {'name': 'lier', 'valid': ['', False, True], 'allowed': [], 'prop': 'lier'}], 'noPropagate': ['cap', 'lier', 'pos'], 'jsonSkip': ['pat', 'h', 'cnt', 'niveau', 'ldv'], 'jsonAlias': [['own', 'ow']], 'typAllowed': [['neg', [False, True]], ['pas', [False, True]], ['prog', [False, True]], ['exc', [False, True]], ['perf', [False, True]], ['refl', [False, True]], ['contr', [False, True]], ['maje', [False, True]], ['mod', [False, 'poss', 'perm', 'nece', 'obli', 'will']], ['int', [False, 'yon', 'wos', 'wod', 'woi', 'was', 'wad', 'wai', 'whe', 'why', 'whn', 'how', 'muc', 'tag']]], 'typKinds': ['S', 'SP', 'VP', 'root', 'subj', 'det', 'mod', 'comp', 'coord'], 'dOptKeysDT': ['year', 'month', 'date', 'day', 'hour', 'minute', 'second', 'nat', 'det', 'rtime'], 'dOptKeysNO': ['mprecision', 'raw', 'nat', 'ord', 'rom'], 'natKinds': ['DT', 'NO'], 'majeKinds': ['Pro', 'D'], 'dOptDefaultDT': [['year', True], ['month', True], ['date', True], ['day', True], ['hour', True], ['minute', True], ['second', True], ['nat', True], ['det', True], ['rtime', False]], 'dOptDefaultNO': [['mprecision', 2], ['raw', False], ['ord', False]], 'lexKinds': ['N', 'A', 'Pro', 'D', 'V', 'Adv', 'C', 'P'], 'jsonPhraseKinds': ['NP', 'AP', 'AdvP', 'VP', 'PP', 'CP', 'S', 'SP'], 'jsonDepKinds': ['root', 'det', 'subj', 'comp', 'mod', 'compObj', 'compObl', 'coord'], 'jsonTermKinds': ['N', 'A', 'Pro', 'D', 'Adv', 'V', 'P', 'C', 'DT', 'NO', 'Q']}
+
+
+def get_table():
+    from harness import translate
+    from harness.translate import options
+    try:
+        return options.extract()
+    except translate.TranslateError:
+        return FALLBACK_TABLE
+
+
+# the witnesses of the `_refuted` theorems of Props/C12.lean, replayed on the real code in every run
+# (name of the theorem, construction program, current language, signature the oracle must report)
+WITNESSES = [
+    ("json_roundtrip_refuted / json_idempotent_refuted",
+     {"k": "root", "lang": "en", "term": "x", "deps": [], "calls": [["o", "tn", None]]}, "en", "json:json:noarg"),
+    ("json_text_roundtrip_refuted",
+     {"k": "DT", "lang": "en", "lemma": {"dt": [2024, 1, 5, 0, 0, 0]}, "calls": []}, "en", "json-text:err:TypeError:datetime"),
+    ("source_roundtrip_refuted",
+     {"k": "Q", "lang": "en", "lemma": 'say "hi"', "calls": []}, "en", "source:err:SyntaxError:quote-lemma"),
+    ("source_stable_refuted",
+     {"k": "Q", "lang": "en", "lemma": "tab\\there", "calls": []}, "en", "source:source:quote-lemma"),
+    ("json_source_stable_refuted",
+     {"k": "Q", "lang": "en", "lemma": "x", "calls": [["o", "cap", True], ["o", "cap", False]]}, "en", "json:source:noncanon"),
+]
+
+
+def work(args):
+    """one chunk: generate, run the model driver and the implementation, compare, run the oracle"""
+    seed, n, driver, profile = args
+    import random
+    global _WORKER
+    if _WORKER is None:
+        table = get_table()
+        _WORKER = (table, Gen(random.Random(0), table), Impl())
+    table, g, im = _WORKER
+    g.rng = random.Random(seed if seed != "witnesses" else 0)
+    lines = []
+    if seed == "witnesses":
+        n = len(WITNESSES)
+        lines = [{"prog": w[1], "cur": w[2], "profile": "witness"} for w in WITNESSES]
+    for _ in range(n - len(lines)):
+        if profile:
+            p = g.program(profile)
+            lines.append({"prog": p, "cur": p["lang"] if profile != "othercur" else g.otherlang(p["lang"]), "profile": profile})
+        else:
+            lines.append(g.line())
+    model = core.run_driver([model_line(l, table) for l in lines], driver)
+    res = {"n": n, "diffs": [], "fails": [], "dist": {}, "warn": 0, "samples": [], "kinds": {}, "optkinds": {}, "hashes": []}
+    import hashlib
+    for l, m in zip(lines, model):
+        if "driver_error" in m:
+            raise core.Infra("driver error %s on %s" % (m["driver_error"], core.canon(l)[:300]))
+        a, obs = impl_line(im, l)
+        key = l["profile"] + "/" + l["prog"]["lang"] + ">" + l["cur"]
+        res["dist"][key] = res["dist"].get(key, 0) + 1
+        if a.get("warn"):
+            res["warn"] += 1
+        else:
+            res["hashes"].append(hashlib.md5(core.canon([l["prog"], l["cur"]]).encode()).hexdigest()[:12])
+            for nd in nodes(l["prog"]):
+                res["kinds"][nd["k"]] = res["kinds"].get(nd["k"], 0) + 1
+                for c in nd["calls"]:
+                    nm = c[1] if c[0] == "o" else c[0]
+                    if c[0] == "add":
+                        nm = "add" if c[2] is None else "add@pos"
+                    kk = nm + "/" + nd["lang"]
+                    res["optkinds"][kk] = res["optkinds"].get(kk, 0) + 1
+        if core.canon(m) != core.canon(a):
+            if len(res["diffs"]) < 20:
+                res["diffs"].append({"line": l, "model": m, "impl": a})
+        for sig, detail in oracle(l, a, obs, table):
+            res["fails"].append((sig, l, detail))
+        if len(res["samples"]) < 1:
+            res["samples"].append({"line": l, "answer": a})
+    # keep per signature the smallest input of this chunk
+    best = {}
+    for sig, l, detail in res["fails"]:
+        if sig not in best or len(core.canon(l)) < len(core.canon(best[sig][0])):
+            best[sig] = (l, detail)
+    res["failcount"] = {}
+    for sig, _, _ in res["fails"]:
+        res["failcount"][sig] = res["failcount"].get(sig, 0) + 1
+    res["fails"] = [(sig, l, d) for sig, (l, d) in best.items()]
+    return res
+
+
+def run(ctx, total=None, profile=None):
+    import multiprocessing
+    if total is None:
+        total = 30000 if ctx.tier == "quick" else 500000
+    nproc = min(16, os.cpu_count() or 4)
+    chunk = 500 if total <= 50000 else 2500
+    jobs = [("witnesses", 0, ctx.driver, None)]
+    left = total
+    while left > 0:
+        n = min(chunk, left)
+        jobs.append((ctx.rng.getrandbits(48), n, ctx.driver, profile))
+        left -= n
+    mp = multiprocessing.get_context("fork")
+    with mp.Pool(nproc) as pool:
+        results = pool.map(work, jobs, chunksize=1)
+    dist, kinds, optkinds, failcount = {}, {}, {}, {}
+    warn = 0
+    got = {core.canon(l["prog"]): sig for sig, l, _ in results[0]["fails"]}
+    allsigs = {}
+    for sig, l, _ in results[0]["fails"]:
+        allsigs.setdefault(core.canon(l["prog"]), []).append(sig)
+    ctx.notes["refutation_witnesses_on_the_real_code"] = {
+        w[0]: ("violates as proved: " + w[3]) if w[3] in allsigs.get(core.canon(w[1]), []) else
+              ("NOT reproduced (expected %s, got %r)" % (w[3], allsigs.get(core.canon(w[1]), [])))
+        for w in WITNESSES}
+    for res in results:
+        warn += res["warn"]
+        for d, src in ((dist, res["dist"]), (kinds, res["kinds"]), (optkinds, res["optkinds"]), (failcount, res["failcount"])):
+            for k, v in src.items():
+                d[k] = d.get(k, 0) + v
+        ctx.cov["evaluations"] += res["n"]
+        ctx.cov["traces_validated_against_impl"] += res["n"]
+        for h in res["hashes"]:
+            ctx.distinct.add(h)
+        for s in res["samples"]:
+            if len(ctx.cov["samples"]) < 8:
+                ctx.cov["samples"].append(s)
+        for d in res["diffs"]:
+            ctx.diff(d["line"], d["model"], d["impl"])
+        for sig, l, detail in res["fails"]:
+            ctx.fail(sig, {"op": "rt", "prog": l["prog"], "cur": l["cur"], "profile": l["profile"]}, detail)
+    ctx.notes["distribution(profile/lang>cur)"] = dict(sorted(dist.items()))
+    ctx.notes["built_with_warnings(outside the domain, warning flag compared only)"] = warn
+    ctx.notes["constituent_kinds"] = dict(sorted(kinds.items()))
+    ctx.notes["option_calls(kind/lang)"] = dict(sorted(optkinds.items()))
+    ctx.notes["clause_failures_by_signature"] = dict(sorted(failcount.items()))
+    table = get_table()
+    wanted = [o["name"] for o in table["options"]] + table["optionListMethods"] + ["tag", "typ", "dOpt", "nat", "maje", "add", "add@pos"]
+    missing = [w + "/" + l for w in wanted for l in ("en", "fr") if optkinds.get(w + "/" + l, 0) == 0]
+    ctx.notes["option_kinds_not_hit"] = missing
+    if ctx.tier == "thorough" and missing:
+        raise core.Infra("thorough tier did not hit every option kind in both languages: %r" % missing)
+
+
+def search(ctx):
+    """deeper search on the implementation when a proof or the correspondence broke: the clean profile (no feature that
+    is known to defeat a clause) in both languages, then every profile"""
+    run(ctx, total=40000, profile="clean")
+    if not ctx.failures:
+        run(ctx, total=60000)
+
+
+def replay(path):
+    """re-runs the input of a replay file on the real pyrealb and prints what the oracle sees"""
+    d = json.load(open(path, encoding="utf-8"))
+    line = d["input"]
+    if "input" in line and "prog" not in line:
+        line = line["input"]
+    table = get_table()
+    im = Impl()
+    ans, obs = impl_line(im, line)
+    print(json.dumps({"answer": ans, "text": (obs or {}).get("text"),
+                      "routes": {r: {k: v for k, v in o.items() if k in ("err", "text", "json_same", "src_same", "s1")}
+                                 for r, o in ((obs or {}).get("routes") or {}).items()},
+                      "oracle": oracle(line, ans, obs, table) if obs else []}, ensure_ascii=False, indent=1, default=str))
+    return 0
